@@ -78,4 +78,44 @@ theorem C19_source : Gen.propagateSource =
      ("upper_level", "qu = 100 - kwargs.get('q', 10) / 2"),
      ("columns", "np.percentile(res, ql, axis=0) | np.median(res, axis=0) | np.percentile(res, qu, axis=0)")] := by rfl
 
+/-- the targets a Monte-Carlo member evaluates, in the order of the source now: the documented
+[experimental, parameter, model] -/
+theorem C19_source_targets :
+    Gen.propagateTargets = ["experimental", "parameter", "model"] ∧ Gen.propagateSplit = "range(len(evalf))" := by
+  exact ⟨rfl, rfl⟩
+
+/-- several targets in one call: which interval matrices come back, and in which order, depends
+only on the *set* of requested targets - never on the order (or repetition) in the request; the
+order is always the documented one -/
+theorem C19_targets_order (req₁ req₂ : List String) (h : ∀ t, t ∈ req₁ ↔ t ∈ req₂) :
+    targetsOut Gen.propagateTargets req₁ = targetsOut Gen.propagateTargets req₂ := by
+  unfold targetsOut
+  apply List.filter_congr
+  intro t _
+  by_cases h1 : t ∈ req₁
+  · have h2 := (h t).mp h1
+    simp [h1, h2]
+  · have h2 : t ∉ req₂ := fun h2 => h1 ((h t).mpr h2)
+    simp [h1, h2]
+
+/-- ... it is a sublist of the documented order, holds every requested known target exactly once,
+and a single target gives a single matrix -/
+theorem C19_targets_documented (req : List String) :
+    (targetsOut Gen.propagateTargets req).Sublist ["experimental", "parameter", "model"] ∧
+    (∀ t ∈ ["experimental", "parameter", "model"], t ∈ req → (targetsOut Gen.propagateTargets req).count t = 1) ∧
+    (∀ t, t ∈ targetsOut Gen.propagateTargets req → t ∈ req) := by
+  have hs : Gen.propagateTargets = ["experimental", "parameter", "model"] := rfl
+  refine ⟨by rw [hs]; exact List.filter_sublist, ?_, ?_⟩
+  · intro t ht hreq
+    rw [hs]
+    unfold targetsOut
+    rw [List.count_filter (by simpa using hreq)]
+    simp only [List.mem_cons, List.not_mem_nil, or_false] at ht
+    rcases ht with rfl | rfl | rfl <;> decide
+  · intro t ht
+    unfold targetsOut at ht
+    simpa using (List.mem_filter.mp ht).2
+
+example : targetsOut Gen.propagateTargets ["model", "parameter"] = ["parameter", "model"] := by decide
+
 end Skg
